@@ -19,12 +19,13 @@ RULE = (
     "schedules - also with a transient 'database is locked' injected at the COMMIT, or at the first write, of every handler transaction in turn - x delivery "
     "schedule (random / LIFO order, withheld acks, one message held back k steps); plus the same family run by three "
     "worker threads interleaved at SQL-statement granularity (random / PCT schedules), and every pair of co-enabled messages "
-    "of ten shapes handled by two workers under the one-preemption schedules. After the queue is drained the "
+    "of ten shapes handled by two workers under the one-preemption schedules; and operator restarts of every completed stage "
+    "of eight shapes when the workflow is nearly or entirely finished. After the queue is drained the "
     "four quiescence predicates are evaluated on store.retrieve(). Non-trivial = quiescent run whose final state is not "
     "all-SUCCEEDED; distinct = (workflow status, sorted multiset of stage statuses, spec shape)."
 )
 ASSUMPTIONS = ["SQLite backend", "quiescence = queue_messages empty after virtual-time warps; wait-budget exhaustion (max_stage_wait_retries=6) ending TERMINAL is legal and counted"]
-MIN_OBS = {"quiescent_runs": {"quick": 1000, "thorough": 20000}, "nonsuccess_final_states": {"quick": 100, "thorough": 2000}, "late_start_runs": {"quick": 100, "thorough": 800}, "commit_faults_injected": {"quick": 150, "thorough": 1500}, "pair_schedule_quiescent_runs": {"quick": 400, "thorough": 10000}}
+MIN_OBS = {"quiescent_runs": {"quick": 1000, "thorough": 20000}, "nonsuccess_final_states": {"quick": 100, "thorough": 2000}, "late_start_runs": {"quick": 100, "thorough": 800}, "commit_faults_injected": {"quick": 150, "thorough": 1500}, "pair_schedule_quiescent_runs": {"quick": 400, "thorough": 10000}, "restarts_of_completed_stages": {"quick": 100, "thorough": 100}}
 TIMEOUT = {"quick": 600, "thorough": 3000}
 
 HOLD_TYPES = ["StartStage", "CompleteStage", "CompleteTask", "RunTask", "CancelStage", "CompleteWorkflow", "ContinueParentStage", "JumpToStage"]
@@ -58,6 +59,7 @@ def gen_cases(tier: str, seed: int) -> list[dict]:
     cases += [{"kind": "race", "i": i, "seed": seed, "runs": 12} for i in range(24 if tier == "quick" else 200)]
     cases += [{"kind": "late_start", "i": i, "seed": seed} for i in range(6 if tier == "quick" else 40)]
     cases += [{"kind": "commit_fault", "i": i, "seed": seed} for i in range(10 if tier == "quick" else 80)]
+    cases += [{"kind": "restart_after", "spec": sp, "seed": seed} for sp in range(8)]
     stride = 3 if tier == "quick" else 1
     for sp in ((0, 2, 4, 8, 9) if tier == "quick" else range(10)):
         for phase in range(stride):
@@ -246,7 +248,48 @@ def _pairs(case: dict) -> dict:
     return {"violations": r["violations"], "obs": obs, "keys": ["c05" + k for k in r["keys"]]}
 
 
+RESTART_SPECS = [lambda: specs.chain(3), lambda: specs.diamond(), lambda: specs.multitask(), lambda: specs.first_of(2), lambda: specs.or_split(), lambda: specs.synthetic(), lambda: specs.terminal_mid(), lambda: specs.failed_continue()]
+
+
+def _restart_after(case: dict) -> dict:
+    """An operator restarts a completed stage - every top-level stage in turn - when the workflow is (nearly or
+    entirely) finished: the execution goes back to RUNNING, the stage runs again, and whatever its downstream looks
+    like (not started yet, or finished in the earlier run) the workflow has to reach a final status again."""
+    spec = RESTART_SPECS[case["spec"]]()
+    ref = delivery_run(spec)
+    obs: Counter = Counter()
+    keys: set = set()
+    violations = []
+    rng = random.Random(case["seed"] * 419 + case["spec"])
+    for s_ in spec["stages"]:
+        for at in (ref.steps + 1, ref.steps - 1, ref.steps - 3, max(2, ref.steps // 2)):
+            for order in ("fifo", "random"):
+                run = delivery_run(spec, seed=rng.randrange(1 << 30), order=order, injections=[{"at": at, "do": "restart_stage", "ref": s_["ref"]}], max_steps=ref.steps * 6 + 200)
+                obs["evaluations"] += 1
+                if run.budget_exhausted or not run.quiescent:
+                    obs["budget_exhausted"] += 1
+                    continue
+                obs["quiescent_runs"] += 1
+                restarted = any(a["kind"] == "mark" and a["op"] == "ins" and a["b"] == "RestartStage" for a in run.audit)
+                if restarted:
+                    obs["restarts_of_completed_stages"] += 1
+                    keys.add(f"restart:{spec['name']}:{s_['ref']}:{run.state['wf']}")
+                v = oracles.attribute(oracles.quiescence_check(run, "C05", spec), run, "C05")
+                for x in v:
+                    x.update(spec=spec["name"], restarted=s_["ref"], restart_before_step=at, order=order)
+                violations += v
+    seen = set()
+    uniq = []
+    for x in violations:
+        if x["sig"] not in seen:
+            seen.add(x["sig"])
+            uniq.append(x)
+    return {"violations": uniq, "obs": dict(obs), "keys": sorted(keys)}
+
+
 def run_case(case: dict) -> dict:
+    if case.get("kind") == "restart_after":
+        return _restart_after(case)
     if case.get("kind") == "pairs":
         return _pairs(case)
     if case.get("kind") == "race":
